@@ -110,6 +110,20 @@ def run(ctx):
             yl[i] = nd
         cases.append(dict(kind="pgu", y=yl, nodata=nd, lam=float(10 ** rng.uniform(-1, 3)), n=n, miss=sum(1 for v in yl if v == nd),
                           p=float(rng.choice([0.99999, 0.00001, 0.9999, 0.0001]))))
+    # low-amplitude noisy series: many cells sit within a unit of the curve, so late reweighting passes still change the
+    # envelope while moving the curve by less than the rounding step (an early stop shows as +-1 in a few cells of ~1% of them)
+    for it in range(900 if ctx.thorough else 300):
+        n = int(rng.integers(12, 60))
+        amp = float(rng.choice([3, 5, 8, 12, 20, 40]))
+        t = np.arange(n)
+        y = np.rint(amp * np.sin(2 * np.pi * t / rng.integers(6, 30) + rng.uniform(0, 6)) + rng.normal(0, amp / 2, n) + rng.integers(-50, 50))
+        nd = -3000.0
+        yl = [float(v) for v in y]
+        if it % 3 == 0:
+            for i in np.where(rng.random(n) < 0.15)[0]:
+                yl[i] = nd
+        cases.append(dict(kind="pgu", y=yl, nodata=nd, lam=float(10 ** rng.uniform(-1, 3)), n=n, miss=sum(1 for v in yl if v == nd),
+                          p=float(rng.choice([0.1, 0.25, 0.6, 0.75, 0.9, 0.95]))))
     # accessor cubes: constant s, per-pixel sgrid incl. -inf, envelope, dims in three orders
     acc = []
     for k in range(9 if ctx.thorough else 5):
